@@ -62,6 +62,8 @@ class Cluster:
                 return self.raw_reply
             if self.mode == "error":
                 return b"ERROR\r\n"
+            if self.mode == "error-end":          # an error answer that is followed by the end token: the call fails at once
+                return b"ERROR\r\n\r\nEND\r\n"
             return render(self.advertised, self.version)
         srv = self.nodes.setdefault(remote, Server())
         self.contacts.append((remote, data.split(b"\r\n", 1)[0]))
@@ -78,14 +80,16 @@ KEYS = [("key%d" % i).encode() for i in range(24)]
 
 
 def scenario(rng, quick):
-    """(use_vpc, chunk choices, steps): a step is ('adv', entries) | ('error',) | ('refuse', entry) | ('accept', entry) | ('tick', seconds) | ('traffic',)"""
+    """(use_vpc, chunk choices, steps): a step is ('adv', entries) | ('error',) | ('error2',) | ('refuse', entry) | ('accept', entry) | ('tick', seconds) | ('traffic',)"""
     steps = []
     cur = rng.sample(UNIVERSE, rng.randrange(1, 7))
     steps.append(("adv", list(cur)))
     for _ in range(rng.randrange(1, 9)):
         r = rng.random()
-        if r < 0.15:
+        if r < 0.1:
             steps.append(("error",))
+        elif r < 0.2:
+            steps.append(("error2",))
         elif r < 0.3 and cur:
             steps.append(("refuse", rng.choice(cur)))
         elif r < 0.4:
@@ -165,7 +169,7 @@ def run_scenario(sc):
                     if r:
                         return r
                 continue
-            cl.mode = "error" if st[0] == "error" else "ok"
+            cl.mode = "error" if st[0] == "error" else "error-end" if st[0] == "error2" else "ok"
             if st[0] == "adv":
                 cl.advertised = st[1]
                 cl.version += 1
@@ -174,7 +178,7 @@ def run_scenario(sc):
                     client = make_client(world, use_vpc, retry_attempts=0, dead_timeout=60)
                 else:
                     client.reconfigure_nodes()
-                if st[0] == "error":
+                if st[0] in ("error", "error2"):
                     return "step %d: the endpoint answered ERROR and the call did not fail" % i, None
             except OSError as e:
                 if st[0] == "error" and isinstance(e, __import__("socket").timeout):
@@ -182,10 +186,14 @@ def run_scenario(sc):
                             "instead of failing with the memcached error" % i), "C19-error-answer-waits-for-end-token"
                 return "step %d (%s): failed with %s: %s" % (i, st[0], type(e).__name__, e), None
             except MemcacheError as e:
-                if st[0] != "error":
+                if st[0] not in ("error", "error2"):
                     return "step %d: reconfiguration raised %s: %s" % (i, type(e).__name__, e), None
                 if client is None:
                     return None        # construction failed with the memcached error: nothing more to observe
+                # a reconfiguration that failed changes nothing: the calls that follow still go to the last advertised nodes
+                r = observe(i)
+                if r:
+                    return r
                 continue
             except Exception as e:
                 return "step %d (%s): failed with the internal error %s: %s" % (i, st[0], type(e).__name__, e), None
@@ -404,7 +412,12 @@ def correspondence(ctx):
     name = lambda vpc, e: "%s:%s" % ((e[1] if vpc else e[0]), e[2])
     fm = ctx.driver.call_many([(3, (v, [raw_of(st[1]) if st[0] == "reply" else (1 if st[0] == "fail" else 2, name(v, st[1])) for st in steps])) for v, steps in fh])
     for (v, steps), m in zip(fh, fm):
-        got = real_failover_history(v, steps)
+        try:
+            got = real_failover_history(v, steps)
+        except Exception as e:  # noqa  (e.g. the client lost the server a step refers to)
+            dis.append({"what": "reconfiguration history with failover bookkeeping", "use_vpc": v, "steps": [repr(x)[:70] for x in steps],
+                        "impl": "the history could not be carried out on the real client: %s: %s" % (type(e).__name__, str(e)[:100])})
+            continue
         if m[0] != "ok":
             dis.append({"what": "failover history", "model-error": repr(m)})
             continue
@@ -431,6 +444,9 @@ def search(ctx):
     fixed = [(True, [], [("adv", UNIVERSE[:3]), ("adv", UNIVERSE[1:2])]), (False, [1] * 300, [("adv", UNIVERSE[:2]), ("adv", UNIVERSE[2:5])]),
              (True, [], [("error",)]), (True, [], [("adv", UNIVERSE[:2]), ("error",), ("adv", UNIVERSE[:1])]),
              (True, [], [("adv", UNIVERSE[:3]), ("refuse", UNIVERSE[0]), ("adv", UNIVERSE[:3]), ("adv", UNIVERSE[1:3]), ("tick", 200), ("adv", UNIVERSE[1:3])])]
+    # a reconfiguration that fails (ERROR answer) must leave the client as it was: the calls after it still reach the last advertised nodes
+    for vpc in (True, False):
+        fixed.append((vpc, [], [("adv", UNIVERSE[:3]), ("error2",), ("traffic",), ("adv", [UNIVERSE[0], UNIVERSE[3]]), ("error2",), ("error2",), ("traffic",)]))
     # a node that was evicted by the failover (it refuses connections) is then withdrawn by the endpoint; after dead_timeout, calls
     # BETWEEN two reconfigurations must not bring it back
     for vpc in (True, False):
